@@ -323,8 +323,14 @@ func (n *Net) respond(x *Exchange, req *http.Request, reqBody []byte, f Fault) (
 	b := &simBody{x: x, ctx: req.Context(), data: body, cap: x.ReadCap, net: n}
 	switch f.Kind {
 	case FStatus:
-		status = f.Param
+		status = f.Param % 1000
 		b.data = []byte("error")
+		if f.Param >= 1000 {
+			// an error page that never ends (a conforming client does not
+			// need the body of a non-200 answer at all)
+			b.data = nil
+			b.synthetic = -1
+		}
 	case FEmpty:
 		b.data = nil
 	case FTruncate:
